@@ -47,6 +47,9 @@ structure SyncReq where
   voidable : Bool := false
   /-- the request itself linked the remote (no link request before it) -/
   implicit : Bool := false
+  /-- keys changed by handlers that ran after the last settle before the request: their live events may have been
+  emitted (through the lane's small output buffer) only after the lane took the key snapshot -/
+  preChanged : List Nat := []
   deriving Repr
 
 structure Pair where
@@ -62,6 +65,7 @@ structure Pair where
   nfSeen : Nat := 0
   unlinkOps : List Nat := []             -- times of the explicit unlink requests not yet seen as `unlinked` frames
   implicitT0 : Option Nat := none        -- the remote became linked by a sync request (no link request before it)
+  implicitW0 : Nat := 0                  -- ... and the first line whose changes may have been emitted after its snapshot
   syncedAt : Nat := 0                    -- when the latest `synced` frame was read
   deriving Repr
 
@@ -75,12 +79,16 @@ structure Mon where
   keys : List Nat := []
   /-- a request was sent without waiting for the agent to settle and no `drain` has happened since -/
   unsettled : Bool := false
+  /-- the last line that ended with a settle (every lane event of the changes logged up to it has been emitted) -/
+  lastSettled : Nat := 0
   cmdSent : List (Nat × List Int) := []            -- per remote: commands sent to the command lane, in order
   cmdSeen : List Int := []                         -- handler invocations, in order
   pairs : List (Nat × Pair) := []
   attached : List Nat := []
   dropped : List Nat := []
   stopped : Bool := false
+  /-- what the value lane held when the `on_get` handler of the HTTP lane ran (on this line) -/
+  httpGet : Option Int := none
   deriving Repr
 
 def pk (r lane : Nat) : Nat := r * 10 + lane
@@ -159,6 +167,10 @@ def Mon.history (m : Mon) (h : String) : Mon × Option String :=
   | ["map", "clr"] =>
     let m1 := m.curMap.foldl (fun (acc : Mon) p => noteKey acc p.1 none) m
     ({ m1 with mapHist := m1.mapHist ++ [(m.t, .clr)], curMap := [] }, none)
+  -- the HTTP lane's handlers note that they ran; the history is in execution order, so the value lane's content at
+  -- the moment `on_get` ran is the monitor's current value here
+  | ["http", "get", _] => ({ m with httpGet := some m.curVal }, none)
+  | ["http", _, _] => (m, none)
   | _ => (m, some "unparsable-history")
 
 /-- index ≥ start of the first history entry with this value -/
@@ -187,8 +199,12 @@ def Mon.frame (m : Mon) (f : Frame) : Mon × Option String :=
     else if !p.isOpen then (m, some "unlinked-without-open-link")
     else
       -- an explicit unlink answers the oldest outstanding unlink request: sync requests made before it are void
+      -- (the unlink overtook them: if they are answered at all, and no later request links the remote, they link it
+      -- implicitly themselves)
       match p.unlinkOps with
-      | _ :: rest => (m.setPair f.r f.lane { p with isOpen := false, unlinkOps := rest }, none)
+      | _ :: rest =>
+        let syncs := if p.linkedAt.isNone then p.syncs.map (fun sq => { sq with implicit := true }) else p.syncs
+        (m.setPair f.r f.lane { p with isOpen := false, unlinkOps := rest, syncs := syncs }, none)
       | [] => (m.setPair f.r f.lane { p with isOpen := false, syncs := p.syncs.map (fun sq => { sq with voidable := true }) }, none)
   | .synced =>
     if !p.isOpen then (m, some "synced-outside-link") else
@@ -216,7 +232,8 @@ def Mon.frame (m : Mon) (f : Frame) : Mon × Option String :=
         else
           -- a remote that linked implicitly by this very sync: keys that changed after the request are the known
           -- loss (the live update was broadcast before the link existed)
-          let changedSince (k : Nat) : Bool := ((alGet sq.allowed k).getD [none]).length > 1
+          let changedSince (k : Nat) : Bool :=
+            ((alGet sq.allowed k).getD [none]).length > 1 || sq.preChanged.contains k
           if (sq.implicit || p.implicitT0 == some sq.t0) && bad.all changedSince then
             (m.setPair f.r f.lane p', some "map-update-lost-during-implicit-link-sync")
           else (m.setPair f.r f.lane p', some "map-snapshot-inconsistent")
@@ -289,8 +306,8 @@ def Mon.final (m : Mon) : Option String :=
                   | .rem k' => if ikey k' = k then h.1 else acc
                   | .clr => h.1) 0
               match p.implicitT0 with
-              | some t0 =>
-                if diff.all (fun k => t0 ≤ lastChange k && lastChange k ≤ p.syncedAt) then
+              | some _ =>
+                if diff.all (fun k => p.implicitW0 ≤ lastChange k && lastChange k ≤ p.syncedAt) then
                   some "map-update-lost-during-implicit-link-sync"
                 else some "map-replica-diverged"
               | none => some "map-replica-diverged"
@@ -325,10 +342,53 @@ def removedKeys (hs : List String) : List Nat :=
     | ["map", "rem", k] => (parseInt k).map ikey
     | _ => none).mergeSort (· ≤ ·)
 
+/-- Map key used by the HTTP handlers (and `on_command`) for the number `n`: `MAP_KEYS[n % 4]` of the rig. -/
+def mapKeyOf (n : Int) : Int := [2, 10, 33, 7].getD (n % 4).toNat 0
+
+/-- An HTTP lane request (`http`: the response was awaited, `httpd`: the response receiver was dropped before the
+request was sent; that op always settles). `post`/`put n` make the handler change a lane (n%3: 0 value lane := n,
+1 map entry `mapKeyOf n` := n, 2 push n to the supply lane): the change is logged where it happens (`on_event` /
+`on_update` of the lane), synchronously with the handler, so it must be in the history of this very line. From there on
+the ordinary rules (never stale at quiescence, replicas converge, supply exactly once) cover it. `post` changes the lane
+in a non-final step of the handler, `put` in its final step: only the latter can be hit by the "response receiver
+dropped" branch of `HttpLifecycleHandler::step`, which has its own reasons. `get` answers with the value lane's content
+at the time the handler ran. `m` is the monitor after this line's history. -/
+def Mon.httpCheck (m : Mon) (kind method : String) (n : Int) (hs ws : List String) : Option String :=
+  if m.stopped then none else
+  let st := (fieldOf ws "st").getD "none"
+  let b := (fieldOf ws "b").getD "-"
+  let dropped := kind == "httpd"
+  if dropped && st != "dropped" then some "http-response-unexpected"
+  else if method == "get" then
+    if dropped then none
+    else if st != "200" then some "http-response-unexpected"
+    else match m.httpGet with
+      | none => some "http-response-unexpected"
+      | some v => if b.toInt? == some v then none else some "http-get-stale"
+  else if method == "head" then
+    if dropped || (st == "200" && b == "-") then none else some "http-response-unexpected"
+  else if method == "delete" then
+    if dropped || st == "405" then none else some "http-response-unexpected"
+  else if method == "post" || method == "put" then
+    if !dropped && st != "200" then some "http-response-unexpected" else
+    let lost := dropped && method == "put"
+    let a := n % 3
+    if a == 0 then
+      if hs.contains s!"val:{n}" then none
+      else some (if lost then "http-dropped-response-change-lost" else "http-handler-change-not-applied")
+    else if a == 1 then
+      if hs.contains s!"map:upd:{mapKeyOf n}:{n}" then none
+      else some (if lost then "map-http-dropped-response-change-lost" else "map-http-handler-change-not-applied")
+    else
+      if hs.contains s!"sup:{n}" then none else some "supply-http-handler-not-run"
+  else some "unparsable-op"
+
 def Mon.step (m : Mon) (line : String) (out : String) : Mon × Option String :=
-  let m := { m with t := m.t + 1 }
+  let prevSettled := m.lastSettled
+  let m := { m with t := m.t + 1, httpGet := none }
   let ws := words out
   let burst := line.startsWith "!"
+  let m := if burst then m else { m with lastSettled := m.t }
   let settledBefore := !m.unsettled && !burst
   let m := { m with unsettled := (m.unsettled || burst) && line != "drain" }
   let line := if burst then (line.drop 1).toString else line
@@ -349,10 +409,16 @@ def Mon.step (m : Mon) (line : String) (out : String) : Mon × Option String :=
         let r := r.toNat?.getD 0; let l := laneId lane; let p := m1.pair r l
         if l = 4 then m1.setPair r l { p with nfExpected := p.nfExpected + 1 }
         else
+          let pre := (m1.mapHist.filter (fun h => h.1 > prevSettled)).foldl (fun (acc : List Nat) h =>
+            match h.2 with
+            | .upd k _ => acc ++ [ikey k]
+            | .rem k => acc ++ [ikey k]
+            | .clr => acc ++ m1.keys) []
           let sq : SyncReq := { t0 := m1.t, allowed := m1.curMap.map (fun e => (e.1, [some e.2])), allowedVal := [m1.curVal],
-                                implicit := p.linkedAt.isNone }
+                                implicit := p.linkedAt.isNone, preChanged := pre }
           m1.setPair r l { p with linkedAt := some (p.linkedAt.getD m1.t), syncs := p.syncs ++ [sq],
-                                  implicitT0 := if p.linkedAt.isNone then some m1.t else p.implicitT0 }
+                                  implicitT0 := if p.linkedAt.isNone then some m1.t else p.implicitT0,
+                                  implicitW0 := if p.linkedAt.isNone then prevSettled + 1 else p.implicitW0 }
       | ["unlink", r, lane] =>
         let r := r.toNat?.getD 0; let l := laneId lane; let p := m1.pair r l
         m1.setPair r l { p with linkedAt := none, implicitT0 := none,
@@ -381,6 +447,12 @@ def Mon.step (m : Mon) (line : String) (out : String) : Mon × Option String :=
               if removedKeys hs == expected then r1 else (r1.1, some "map-take-drop-wrong-keys")
             | none => r1
           | none => r1
+        else r1
+      | none, [kind, method, n] =>
+        if kind == "http" || kind == "httpd" then
+          match n.toInt? with
+          | some n => (r1.1, r1.1.httpCheck kind method n hs ws)
+          | none => (r1.1, some "unparsable-op")
         else r1
       | _, _ => r1
     match r1.2 with
